@@ -113,6 +113,9 @@ func (x *Exec) intrinsic(fr *Frame, st *State, ins ssa.Instruction, cc *ssa.Call
 	case "vs_same":
 		a, b := x.val(fr, st, cc.Args[0]), x.val(fr, st, cc.Args[1])
 		fr.regs[res] = and(eq(sArr(a), sArr(b)), eq(sOff(a), sOff(b)), eq(sLen(a), sLen(b)))
+	case "vs_eq":
+		// structural equality of two values of the same type (for types Go's == rejects)
+		fr.regs[res] = eq(x.val(fr, st, cc.Args[0]), x.val(fr, st, cc.Args[1]))
 	case "vs_fresh":
 		v := x.val(fr, st, cc.Args[0])
 		old := x.specOld(fr)
